@@ -38,6 +38,8 @@ CHECKS["C08"] = dict(
                bounds="canonical pre-state: 1 next-hop, 1 group (either instance; optional backup id: missing/self/other), 1 top-level entry (either instance, optional cross-instance reference); Flush of {default}, {vrf} or both"),
           dict(pkg="rib", harness="VfC08_flush_qx", reach=["end", "pre-built"], opts=dict(only=["C08:", "C01:", "C03:"]),
                bounds="a next-hop and a group in each instance, 2 IPv4 entries in either instance (implicit and explicit group instances); Flush of {default}, {vrf} or both"),
+          dict(pkg="rib", harness="VfC08_flush_big", reach=["end", "pre-built"], opts=dict(only=["C08:", "C01:", "C03:"]),
+               bounds="scale: the large pre-state of VfRIB_big (16 next-hops, 8 groups, 12 top-level entries, cross-instance references, 9 held operations); Flush of {default}, {vrf} or both (VRF first); then one further symbolic next-hop / group operation"),
           dict(pkg="rib", harness="VfC08_flush_t", reach=["end", "pre-built"], quick=dict(skip=True), opts=dict(only=["C08:", "C01:", "C03:"]),
                bounds="as flush_q with 2 groups (shared backup ids), 1 held operation, all top-level kinds, slots in either instance, every map iteration order (n<=3)"),
           dict(pkg="server", harness="VfC08_flushDecision", reach=["authorised", "no-instance", "missing-election-field", "unexpected-election-id", "zero-id", "lower-id", "unknown-instance"],
@@ -83,17 +85,20 @@ _B["VfRIB_qx"] = "cross-instance references: a next-hop and a group in EACH of t
 _B["VfRIB_qo"] = "acknowledgement order: 1 next-hop, 2 held IPv4 entries (possibly the same key, different payloads) waiting for a group; one symbolic group ADD/REPLACE; every iteration order of the held-operation map (native replay repeated up to 40 times since Go randomises map order)"
 _B["VfRIB_qEnum"] = "enum-typed payload: pre-state 1 optional next-hop (encapsulate-/decapsulate-header any DEFINED number) + 1 optional group; one symbolic next-hop ADD/REPLACE/DELETE whose two header fields are ANY int32 (all 2^64 pairs, defined or not), any instance name, symbolic index"
 _RE = [("VfRIB_qEnum", _B["VfRIB_qEnum"])]
+_B["VfRIB_big"] = "scale: a large pre-state of concrete shape built through the API (16 next-hops, 8 two-member groups sharing next-hops, 6 IPv4 (symbolic distinct prefixes) / 4 MPLS / 2 IPv6 entries over two instances incl. cross-instance references, 6 held groups + 3 held entries), then ONE fully symbolic operation that may hit any installed or held object"
+_RS = [("VfRIB_big", _B["VfRIB_big"])]
 _RQ = [(h, _B[h]) for h in ("VfRIB_q1", "VfRIB_q2", "VfRIB_qNoFwd", "VfRIB_qx", "VfRIB_qo")]
 _B["VfRIB_t1r"] = "as q1 plus a held operation (ADD or REPLACE) and optional payload fields everywhere (next-hop tag / pop-top-label, backup group, colour, metadata, weights); one symbolic operation with <=2 members"
 _B["VfRIB_t3e"] = "histories from the EMPTY two-instance RIB: THREE consecutive fully symbolic operations (next-hop / group of <=1 member / IPv4 entry; ADD/REPLACE/DELETE; any instance name)"
 _RT = [(h, _B[h]) for h in ("VfRIB_t1", "VfRIB_t1r", "VfRIB_t2", "VfRIB_tOrder")]
 _RIBNOTE = "Trusted: go/ssa, gosym, z3, the Go models of candidateRIB/MergeStructInto (validated natively by TestVfModelAgreement on the modelled fields), the reference RIB in harness/rib/vf_ref.go. Payload = key, group reference (+instance), entry metadata, group members/weights/backup/colour, next-hop network-instance; other payload fields are outside (C07)."
-CHECKS["C01"] = dict(runs=_rib(["C01:"], _RQ + _RE, _RT), assumptions=["pre-states are reference-closed states built by the canonical history (next-hops, groups, entries, held operations); one or two further symbolic operations"],
+CHECKS["C01"] = dict(runs=_rib(["C01:"], _RQ + _RE + _RS, _RT), assumptions=["pre-states are reference-closed states built by the canonical history (next-hops, groups, entries, held operations); one or two further symbolic operations"],
     level_text="Differential bounded symbolic execution of the real RIB (AddEntry/DeleteEntry and everything below) against a reference fold of the acknowledged operations: after every operation the real tables equal the fold, for every value of the symbolic keys/payloads/instance names.", level_note=_RIBNOTE)
-CHECKS["C02"] = dict(runs=_rib(["C02:"], _RQ, _RT), assumptions=["as C01"],
+CHECKS["C02"] = dict(runs=_rib(["C02:"], _RQ + _RS, _RT), assumptions=["as C01"],
     level_text="Same exploration as C01, checking that every acknowledgement happened in a state where the operation was valid and resolvable, that held operations are kept exactly while unresolvable, for every order of the held-operation walk (thorough).", level_note=_RIBNOTE)
-CHECKS["C03"] = dict(runs=_rib(["C03:"], _RQ, _RT) + [dict(pkg="rib", harness="VfC08_flush_q", reach=["end"], thorough=dict(skip=True), opts=dict(only=["C03:"]), bounds="reference counters after Flush (see C08)"),
+CHECKS["C03"] = dict(runs=_rib(["C03:"], _RQ + _RS, _RT) + [dict(pkg="rib", harness="VfC08_flush_q", reach=["end"], thorough=dict(skip=True), opts=dict(only=["C03:"]), bounds="reference counters after Flush (see C08)"),
                                                     dict(pkg="rib", harness="VfC08_flush_qx", reach=["end"], thorough=dict(skip=True), opts=dict(only=["C03:"]), bounds="reference counters after Flush, entries and groups in both instances (see C08)"),
+                                                    dict(pkg="rib", harness="VfC08_flush_big", reach=["end", "pre-built"], opts=dict(only=["C03:"]), bounds="reference counters after Flush of the large pre-state and one further operation (see C08)"),
                                                     dict(pkg="rib", harness="VfC08_flush_t", reach=["end"], quick=dict(skip=True), opts=dict(only=["C03:"]), bounds="reference counters after Flush (see C08)")],
     assumptions=["as C01"],
     level_text="Same exploration as C01, checking DELETE verdicts against referrers found by scanning the installed entries and the counter==referrers invariant after every operation and after Flush.", level_note=_RIBNOTE)
@@ -101,7 +106,7 @@ CHECKS["C03"] = dict(runs=_rib(["C03:"], _RQ, _RT) + [dict(pkg="rib", harness="V
 CHECKS["C12"] = dict(
     runs=[dict(pkg="server", harness="VfC12_malformed", reach=["end", "rejected", "delete-of-absent-key"],
                bounds="one operation sent by the elected primary through doModify/modifyEntry into the real RIB: 31 malformed shapes (nil at every level of every entry kind, zero ids, empty group, zero/body-less members, 11 invalid prefixes, every out-of-range 64-bit label, unknown group instance, every undefined enum number in the encapsulate-/decapsulate-header fields of next-hops and IPv4/IPv6 entries and in an enumerated MPLS label) x any operation type number; plus valid content under an arbitrary unknown/empty instance name or an undefined operation type")]
-         + _rib(["C12:"], _RQ + _RE, _RT),
+         + _rib(["C12:"], _RQ + _RE + _RS, _RT),
     assumptions=["what happens inside the real candidateRIB (protomap/ytypes) is replaced by its model; the model's reaction to an enum number the type does not define (panic or error) is a calibration fact measured natively on the current tree before every run (TestVfModelCalibrate) and model and real code are compared on 2 500 / 20 000 random payloads incl. undefined numbers (TestVfModelAgreement); a panic path found through the model is reported only after the real code panicked in the native replay",
                  "nil elements inside repeated fields are not wire-representable and are excluded"],
     level_text="Bounded symbolic execution of the operation path with malformed content at every level: no path panics, every malformed operation is answered FAILED or by a clean RPC error, and a structural before/after comparison of tables, counters and held set shows no effect.",
@@ -118,7 +123,7 @@ CHECKS["C06"] = dict(
                bounds="real Server.Modify (3 goroutines) on [params, election, ADD] followed at once by a half-close; every schedule with up to 2 pre-emptive context switches at synchronisation points")]
          + [dict(pkg="server", harness="VfC06_manyHeld300", reach=["end", "pre-built", "resolved-one"], validate=2, opts=dict(maxsteps=600000000),
                  bounds="scale: 300 held operations (groups waiting for distinct next-hops), then one symbolic operation of any kind that may resolve any one of them")]
-         + _rib(["C06:", "C02:no-held-operation-is-resolvable", "C02:held-operation-kept"], [(h, _B[h]) for h in ("VfRIB_q2", "VfRIB_q3", "VfRIB_qx2")], _RT),
+         + _rib(["C06:", "C02:no-held-operation-is-resolvable", "C02:held-operation-kept"], [(h, _B[h]) for h in ("VfRIB_q2", "VfRIB_q3", "VfRIB_qx2", "VfRIB_big")], _RT),
     assumptions=["response streams are observed at doModify's result channel (the result pump of Modify forwards them unchanged; its scheduling is C10/C11's subject)"],
     level_text="Bounded symbolic execution of doModify + RIB from symbolic requests: per-id verdict counting over the emitted results, RIB-before-FIB order, and held-set bookkeeping (answered xor held) decided for all symbolic keys/references/instance names.",
     level_note=_RIBNOTE)
@@ -142,6 +147,8 @@ CHECKS["C07"] = dict(
                bounds="canonical pre-state (1 next-hop, 1 group, 1 IPv4/IPv6/MPLS entry, optional payload fields) in two instances; GetRIB of either instance with each of the 6 table filters; ALL compared with the union of the five per-table Gets; FromGetResponses over both instances compared with the reference"),
           dict(pkg="rib", harness="VfC07_getRIB_t", reach=["end", "pre-built", "all"], quick=dict(skip=True), opts=dict(only=["C07:"]),
                bounds="as getRIB_q with 2 next-hops, 2 top-level entries, a held operation (must not be reported), groups of <=2 members, slots in either instance"),
+          dict(pkg="rib", harness="VfC07_getRIB_big", reach=["end", "pre-built", "all"], opts=dict(only=["C07:"]),
+               bounds="scale: GetRIB of either instance with each of the 6 table filters on the large pre-state of VfRIB_big (held operations must not be reported)"),
           dict(pkg="server", harness="VfC07_doGet", reach=["end"], bounds="Server.Get on a scripted stream: instance selector (all / name incl. empty and unknown) x table filter (any enum number); small concrete RIB in two instances")],
     assumptions=["PARTIAL: the reflection pipeline (protomap / ytypes / ygot) is replaced by models that carry key, group reference(+instance), metadata, members/weights/backup/colour, next-hop network-instance, pop-top-label, encapsulate-/decapsulate-header; the models are calibrated and compared with the real functions on random payloads before every run, and sample paths are replayed natively (a native failure of a C07 assertion is reported as a VIOLATION). Every other payload field (addresses, MAC, interface refs, label stacks, ...) is OUTSIDE this check"],
     level_text="Bounded symbolic execution of GetRIB / doGet / FromGetResponses from symbolic RIB contents: scope, filter, tagging, once-only and modelled-field payload equality are decided for every symbolic key/value.",
